@@ -59,7 +59,8 @@ def expand_item(mod, item):
         for rule, detail, msg in errs:
             out["violations"].append({"sig": {"rule": rule, "detail": detail, "init": init if mod.SIG_INIT else "*"},
                                       "witness": {"init": init, "history": h, "phase": "invariants"}, "msg": msg})
-        succ.append({"op": op, "hash": hsh, "nerr": len(errs)})
+        succ.append({"op": op, "hash": hsh, "nerr": len(errs),
+                     "label": mod.state_label(m) if hasattr(mod, "state_label") else None})
         for c in mod.cover_of(m, h):
             out["cover"].append(c)
     return out
@@ -103,6 +104,7 @@ def bfs(ctx, mod, inits, depth, sim_depth=None, expand_chunk=None):
         frontier.append((init, []))
     to_sim = [{"init": i, "hist": h} for i, h in frontier]
     n_trans = 0
+    labels = {}
     for d in range(depth):
         if ctx.out_of_time():
             ctx.exhaustive = False
@@ -121,6 +123,8 @@ def bfs(ctx, mod, inits, depth, sim_depth=None, expand_chunk=None):
                 continue
             n_trans += r.get("transitions", 0)
             for s in r["succ"]:
+                if s.get("label") is not None:
+                    labels.setdefault((item["init"], s["label"]), {}).setdefault(s["hash"], list(item["hist"]) + [s["op"]])
                 key = (item["init"], s["hash"])
                 if key not in seen:
                     hist = list(item["hist"]) + [s["op"]]
@@ -132,6 +136,7 @@ def bfs(ctx, mod, inits, depth, sim_depth=None, expand_chunk=None):
         frontier = nxt
         ctx.note(f"states_after_depth_{d+1}", len(seen))
     ctx.states = len(seen)
+    ctx.labels = labels
     ctx.note("frontier_unexpanded", len(frontier))
     if hasattr(mod, "simulate_state") and to_sim:
         chunk = 4
